@@ -343,14 +343,14 @@ def account(acc, reply, x, line):
         classes.append("has.encode-failure")
     if int(reply.get("chkfail", 0)):
         classes.append("has.constraint-failure")
+    # how many threads ran the same function family on the same descriptor (the most crowded pair of this set)
+    classes.append("threads-on-one-function+descriptor.%s" % reply.get("maxthr", "0"))
     acc.case(nt, classes)
     for k in ("calls", "shared", "executed", "skipped", "decok", "decfail", "encok", "encfail", "chkfail", "yields"):
         acc.extra["ops." + k if k not in ("calls", "shared") else k] += int(reply.get(k, 0))
     acc.extra["script_sets"] += 1
     acc.extra["concurrent_runs"] += int(reply.get("reps", 0))
     acc.extra["threads_started_concurrently"] += int(reply.get("reps", 0)) * int(reply.get("threads", 0))
-    acc.extra["max_threads_on_one_function_and_descriptor"] = max(
-        acc.extra["max_threads_on_one_function_and_descriptor"], int(reply.get("maxthr", 0)))
 
 
 def control_run(mb, line):
